@@ -172,26 +172,15 @@ The split-tree model above applies to a function only if it is a thin wrapper ov
 vector's indexed rayon iterator.  The table `Gen.parForms` is regenerated from the source on every
 run; these theorems are statements about what the source says now. -/
 
-/-- every helper iterates the element vector itself; the indexed forms rebuild the index from the
-global position supplied by `enumerate` with the matrix's own order and shape; the mapping forms
-guard with the SIZE (not the capacity) and copy order and shape -/
-theorem parForms_wrappers : ∀ r ∈ Gen.parForms,
-    (r.source = "par_iter" ∨ r.source = "par_iter_mut" ∨ r.source = "into_par_iter") ∧
-    (r.enumerates = true → r.indexExpr = "Index::from_flattened(index, self.order, self.shape)") ∧
-    (r.tail = "map(f).collect()" → r.capacityGuardArg = "self.size()" ∧ r.copiesOrderShape = true) ∧
-    (r.tail = "" ∨ r.tail = "for_each(f)" ∨ r.tail = "map(f).collect()") := by decide
-
+/- The string-comparing table theorems `parForms_wrappers`, `parForms_indexed` and `parForms_mapping` (T1) were retired in the
+fourth session: `C16.parallel_is_the_source` (T16, `Lemmas/BridgeT16.lean`) proves each of the nine regenerated wrappers equal,
+for every split tree, to its regenerated sequential twin — source iterator, `enumerate`, the index expression, the argument and
+element type of the capacity check and the copied fields included —, and the tables alarmed on harmless rewrites (renamed locals,
+`let size = self.size();`, explicit struct fields).  The list of wrappers is still checked: -/
 theorem parForms_names : Gen.parForms.map (·.name) =
     ["par_apply", "par_map", "par_map_ref", "par_iter_elements", "par_iter_elements_mut",
      "into_par_iter_elements", "par_iter_elements_with_index", "par_iter_elements_mut_with_index",
      "into_par_iter_elements_with_index"] := by decide
-
-theorem parForms_indexed : (Gen.parForms.filter (·.enumerates)).map (·.name) =
-    ["par_iter_elements_with_index", "par_iter_elements_mut_with_index",
-     "into_par_iter_elements_with_index"] := by decide
-
-theorem parForms_mapping : (Gen.parForms.filter (fun r => r.tail = "map(f).collect()")).map (·.name) =
-    ["par_map", "par_map_ref"] := by decide
 
 example : parMapIdx (fun i (x : Nat) => (i, x * 10)) (.node 1 .leaf (.node 2 .leaf .leaf)) 0 [7, 8, 9, 10]
     = [(0, 70), (1, 80), (2, 90), (3, 100)] := by rfl
